@@ -211,3 +211,28 @@ int c14_sid_install_psk(sslSessionId_t *s, const void *snap)
     (void) s; (void) snap; return -1;
 #endif
 }
+
+/* The peer of the endpoint under test sends a FATAL alert with an arbitrary description under its current write keys
+ * (TLS <= 1.2; the public API can only send a warning close_notify).  Uses the library's own error-alert path: an
+ * error marked on the connection is answered with writeAlert(FATAL, err). */
+int c14_send_fatal_alert(ssl_t *ssl, int desc)
+{
+    sslBuf_t sbuf;
+    uint32 reqLen = 0;
+    int32 rc;
+
+    if (ssl->outbuf == NULL || ssl->outsize - ssl->outlen < 128)
+    {
+        return PS_FAILURE;
+    }
+    sbuf.buf = sbuf.start = sbuf.end = ssl->outbuf + ssl->outlen;
+    sbuf.size = ssl->outsize - ssl->outlen;
+    ssl->err = desc;
+    rc = sslEncodeResponse(ssl, &sbuf, &reqLen);
+    if (rc < 0)
+    {
+        return rc;
+    }
+    ssl->outlen += sbuf.end - sbuf.start;
+    return PS_SUCCESS;
+}
